@@ -145,12 +145,16 @@ theorem O1_seam_throw_500 (srv : Server) (env : Env) (data : Bytes) (p : ParsedR
 example : process { upgradeHook := fun _ => .threw false } Env.up
     (ascii "GET / HTTP/1.1\r\nHost: x\r\nUpgrade: websocket\r\n\r\n") = .respond (errorWire 500) true := by decide +kernel
 
-/-- F1 (review round 2), repaired by FC16c: an accepted upgrade whose request was followed, in the same read, by bytes of the
-    upgraded protocol.  The arm hands the upgrade response to the transport and then feeds the buffered bytes to the virtual
-    `onUpgradedData` on the worker thread.  Whatever that hook does — return, throw a `std::exception`, throw anything else —
-    and in every environment, the request gets the upgrade response and NOTHING else is sent: the only effect of a throw is
-    one Close.  (On the unrepaired tree `Gen.upgradeDrainGuarded` is false, the throw reaches the function's error arm, the
-    calls are `[sendAsync 101, sendAsync 500, close]`, and `drainCalls_eq` / `processCalls_shape` do not build.) -/
+/-- F1 (review round 2), repaired by FC16c; drain loop and upgrade hold of FC18f: an accepted upgrade whose request was
+    followed by bytes of the upgraded protocol — in the same read, or in reads that arrive while the worker is still busy
+    (the I/O thread queues them behind under the hold).  The arm hands the upgrade response to the transport and then
+    drains in a loop: `env.drainChunks` passes find bytes, pass `k` hands them to the virtual `onUpgradedData`
+    (`srv.drainHook k`) on the worker thread.  Whatever those calls do — return, throw a `std::exception`, throw anything
+    else, at any pass — and in every environment, the request gets the upgrade response and NOTHING else is sent: the only
+    effect of a throw is one Close (when the transport is still up), and the loop is left at that pass: the hook is called
+    once per pass up to and including the first throwing one, never again (`drainHookCalls`).  (On a tree without the
+    drain's own `catch (...)`, `Gen.upgradeDrainGuarded` is false, the throw reaches the function's error arm, the calls are
+    `[sendAsync 101, sendAsync 500, close]`, and `drainLoop_eq` / `processCalls_shape` do not build.) -/
 theorem O1_upgrade_drain (srv : Server) (env : Env) (data : Bytes) (p : ParsedReq) (u : Resp)
     (h : env.shutdownAtEntry = false) (hp : fromWireFormat data = .ok p) (hu : upgradeSeam srv p = .ret (some u)) :
     (processCalls srv env data).1 =
@@ -159,17 +163,25 @@ theorem O1_upgrade_drain (srv : Server) (env : Env) (data : Bytes) (p : ParsedRe
                (hSet u.headers (ascii "Server") (ascii Gen.HttpRespond.serverHeader)) u.body)]) ++
       (if drainCloses srv env then [.close] else []) ∧
     (drainCloses srv env = true ↔
-      env.bufferedAtUpgrade = true ∧ (∃ std, srv.drainHook = .threw std) ∧ env.upAtClose = true) ∧
+      (∃ k, k < env.drainChunks ∧ ∃ std, srv.drainHook k = .threw std) ∧ env.upAtClose = true) ∧
+    drainHookCalls srv.drainHook env.drainChunks 0 ≤ env.drainChunks ∧
+    (drainThrows srv.drainHook env.drainChunks 0 = false →
+      drainHookCalls srv.drainHook env.drainChunks 0 = env.drainChunks) ∧
     Gen.HttpRespond.upgradeDrainGuarded = true := by
-  refine ⟨?_, ?_, drainGuarded_eq⟩
+  refine ⟨?_, ?_, drainHookCalls_le _ _ _, drainHookCalls_no_throw _ _ _, drainGuarded_eq⟩
   · unfold upgradeSeam at hu
     simp [processCalls, h, hp, hu, drainCalls_eq]
   · unfold drainCloses
-    cases env.bufferedAtUpgrade <;> cases env.upAtClose <;> cases srv.drainHook <;> simp
+    rw [Bool.and_eq_true, drainThrows_iff]
+    constructor
+    · rintro ⟨⟨j, _, h2, h3⟩, hc⟩; exact ⟨⟨j, by omega, h3⟩, hc⟩
+    · rintro ⟨⟨j, h2, h3⟩, hc⟩; exact ⟨⟨j, Nat.zero_le _, by omega, h3⟩, hc⟩
 
-example : (processCalls { upgradeHook := fun _ => .ret (some { status := 101 }), drainHook := .threw false }
-      { bufferedAtUpgrade := true } (ascii "GET / HTTP/1.1\r\nHost: x\r\nUpgrade: websocket\r\n\r\n")).1 =
-    [.sendAsync (ascii "HTTP/1.1 101 Switching Protocols\r\nServer: Iora/1.0\r\n\r\n"), .close] := by decide +kernel
+/-- three passes find bytes, the second call throws: the 101, one Close, and the hook was called exactly twice -/
+example : (processCalls { upgradeHook := fun _ => .ret (some { status := 101 }), drainHook := fun k => if k = 1 then .threw false else .ret () }
+      { drainChunks := 3 } (ascii "GET / HTTP/1.1\r\nHost: x\r\nUpgrade: websocket\r\n\r\n")).1 =
+    [.sendAsync (ascii "HTTP/1.1 101 Switching Protocols\r\nServer: Iora/1.0\r\n\r\n"), .close] ∧
+    drainHookCalls (fun k => if k = 1 then .threw false else .ret ()) 3 0 = 2 := by decide +kernel
 
 /-- F4a (review round 2): `sendErrorResponse` on pool overflow in EVERY environment, not only on a running server: nothing
     while `_transport && !_shutdown` fails; otherwise the 503 Send and the Close — and the Close also when the engine
